@@ -157,9 +157,10 @@ fn description_lines(text: &str) -> Vec<String> {
 }
 
 /// Whether a comment line starting with `text` would be parsed as the
-/// continuation of a type on the previous line (`string` / `--- | nil`).
+/// continuation of the annotation on the previous line: of its type
+/// (`string` / `--- | nil`) or of a class header (`A` / `--- : Parent`).
 fn continues_type(text: &str) -> bool {
-    if text.starts_with(['|', '&', '?', '[', '<', '+', '-']) {
+    if text.starts_with(['|', '&', '?', '[', '<', '+', '-', ':']) {
         return true;
     }
     let word_end = text
